@@ -1,8 +1,6 @@
 package visor
 
 import (
-	"errors"
-
 	"github.com/skycoin/skycoin/src/cipher"
 	"github.com/skycoin/skycoin/src/coin"
 	"github.com/skycoin/skycoin/src/transaction"
@@ -13,19 +11,6 @@ import (
 
 // C28-H1 — Visor.VerifyTxnVerbose returns a verdict (never panics) whatever the
 // stores answer, for every transaction shape.
-
-var vpErrStore = errors.New("vp: store failure")
-
-// vpModelCoinHours: contract of coin.UxOut.CoinHours (value or error, deterministic); C31 checks the real one.
-func vpModelCoinHours(uo *coin.UxOut, t uint64) (uint64, error) {
-	if vpUF64("coinhours.kind", uo.Head.Time, uo.Body.Coins, uo.Body.Hours, t)%2 == 1 {
-		return 0, vpErrStore
-	}
-	return vpUF64("coinhours.value", uo.Head.Time, uo.Body.Coins, uo.Body.Hours, t), nil
-}
-
-// vpModelDBView: (*dbutil.DB).View(name, f) runs f inside a read transaction.
-func vpModelDBView(db *dbutil.DB, name string, f func(*dbutil.Tx) error) error { return f(nil) }
 
 type vpFakePool struct {
 	blockdb.UnspentPooler
@@ -53,7 +38,7 @@ type vpFakeChain struct {
 }
 
 func (c *vpFakeChain) Head(tx *dbutil.Tx) (*coin.SignedBlock, error) { return c.head, c.headErr }
-func (c *vpFakeChain) Unspent() blockdb.UnspentPooler                 { return c.pool }
+func (c *vpFakeChain) Unspent() blockdb.UnspentPooler                { return c.pool }
 func (c *vpFakeChain) GetSignedBlockBySeq(tx *dbutil.Tx, seq uint64) (*coin.SignedBlock, error) {
 	return c.prev, c.prevErr
 }
